@@ -41,7 +41,8 @@ TRUSTED = [
     "them rational, compared with the float code within 1e-13",
 ]
 RULE = ("integer (complex-integer) matrices of size 1-5 with 1-9 R-vectors; up/down R-sets equal, nested, overlapping "
-        "and disjoint; Pythagorean angles incl. 0 and pi; random float systems from the repository's generator at "
+        "and disjoint; in the oracle: identical lists, the same set in another order, another set of the same size, "
+        "different sizes; Pythagorean angles incl. 0 and pi; random float systems from the repository's generator at "
         "random k (oracle systems are generic: complex Hermitian hoppings with E(k) != E(-k), counted; nspin 1 and 2 "
         "alternate).  non-trivial = at least 2 Wannier functions per spin and at least 2 R-vectors (or a non-axis "
         "angle); distinct = distinct (operation, inputs)")
@@ -462,20 +463,38 @@ def rand_soc_setup(rs, with_soc, nspin=None, same_R=None):
             asym = float(np.abs(spectrum(hk_plain(up, kt)) - spectrum(hk_plain(up, -kt))).max())
             if asym > 1e-3 or attempt == 0 and rs.rand() < 0.15:
                 break
+        rrel = "n/a"
         if nspin == 2:
-            if same_R:
-                seed = int(rs.randint(0, 2**31 - 1))
-                dn = make_system(L, up.rvec.iRvec, rs.uniform(0, 1, (nw, 3)) if rs.rand() < 0.5 else up.wannier_centers_red,
-                                 {k: herm_R([tuple(R) for R in up.rvec.iRvec],
-                                            np.random.RandomState(seed).normal(size=v.shape) + 1j *
-                                            np.random.RandomState(seed + 1).normal(size=v.shape))
-                                  for k, v in up._XX_R.items()})
-            else:
+            # relation between the spin-up and spin-down R-vector lists: identical / the same set in another order /
+            # another set of the same size / different sizes
+            rrel = "identical" if same_R else str(rs.choice(["permuted", "same-size", "different", "different"]))
+            up_list = [tuple(int(x) for x in R) for R in up.rvec.iRvec]
+            if rrel == "different":
                 dn = rand_system(rs, num_wann=nw, nR=int(rs.randint(1, 11)), max_R=int(rs.randint(1, 4)), lattice=L,
                                  matrices=("Ham", "AA"))
+            else:
+                if rrel == "identical":
+                    dn_list = list(up_list)
+                elif rrel == "permuted":
+                    dn_list = [up_list[i] for i in rs.permutation(len(up_list))]
+                    if dn_list == up_list and len(up_list) > 1:
+                        dn_list = dn_list[1:] + dn_list[:1]
+                else:
+                    dn_list = up_list
+                    for _ in range(20):
+                        if set(dn_list) != set(up_list) or len(up_list) < 3:
+                            break
+                        dn_list = sym_Rlist(ctx_rng_from(rs), len(up_list), maxR=3)
+                    if len(dn_list) != len(up_list):
+                        rrel = "different"
+                seed = int(rs.randint(0, 2**31 - 1))
+                dn = make_system(L, dn_list, rs.uniform(0, 1, (nw, 3)) if rs.rand() < 0.5 else up.wannier_centers_red,
+                                 {k: herm_R(dn_list, np.random.RandomState(seed).normal(size=(len(dn_list),) + v.shape[1:]) + 1j *
+                                            np.random.RandomState(seed + 1).normal(size=(len(dn_list),) + v.shape[1:]))
+                                  for k, v in up._XX_R.items()})
         else:
             dn = None
-    info = dict(num_wann=nw, nspin=nspin, same_R=bool(same_R), up_is_generic=bool(asym > 1e-3), nR_up=up.rvec.nRvec,
+    info = dict(num_wann=nw, nspin=nspin, same_R=bool(same_R), R_lists=rrel, up_is_generic=bool(asym > 1e-3), nR_up=up.rvec.nRvec,
                 nR_down=(dn.rvec.nRvec if dn is not None else None))
     socmats, iR_soc, theta, phi, alpha = None, None, 0.0, 0.0, 1.0
     if with_soc:
@@ -510,7 +529,7 @@ def oracle_soc(ctx, scale, rs):
         case0 = dict(what="SystemSOC without SOC", rs_state_hash=hash(state[1].tobytes()) % 10**9)
         with ctx.attempt("SystemSOC without SOC", case0):
             soc, up, dn, info = rand_soc_setup(rs, with_soc=False, nspin=1 + it % 2)
-            ctx.count(f"oracle.nosoc.nspin={info['nspin']}.sameR={info['same_R']}.E(k)!=E(-k):{info['up_is_generic']}")
+            ctx.count(f"oracle.nosoc.nspin={info['nspin']}.Rlists={info['R_lists']}.E(k)!=E(-k):{info['up_is_generic']}")
             for ik in range(2):
                 k = rand_k(rs)
                 case = dict(case0, **info, k=k, Ham_up=up.get_R_mat("Ham"), iR_up=up.rvec.iRvec,
@@ -538,7 +557,7 @@ def oracle_soc(ctx, scale, rs):
         case0 = dict(what="SystemSOC.get_system_R", rs_state_hash=hash(state[1].tobytes()) % 10**9)
         with ctx.attempt("SystemSOC.get_system_R", case0):
             soc, up, dn, info = rand_soc_setup(rs, with_soc=True, nspin=1 + it % 2)
-            ctx.count(f"oracle.soc.nspin={info['nspin']}.sameR={info['same_R']}.E(k)!=E(-k):{info['up_is_generic']}")
+            ctx.count(f"oracle.soc.nspin={info['nspin']}.Rlists={info['R_lists']}.E(k)!=E(-k):{info['up_is_generic']}")
             with quiet():
                 sR = soc.get_system_R()
             # real-space Hermiticity of what set_soc_axis assembled: X(-R) = X(R)^dagger
